@@ -62,9 +62,13 @@ class RealConfig:
                 kw = json.loads(json.dumps(op.get('kwargs', {})))
                 cf = None
                 if op.get('file') is not None:
-                    self.nfile += 1
-                    cf = self.tmp / f'cfg{self.nfile}.toml'
-                    cf.write_text(render_toml(op['file']))
+                    # one file per content, written once: later loads of the same configuration file reuse it unchanged
+                    import hashlib
+
+                    txt = render_toml(op['file'])
+                    cf = self.tmp / ('cfg_' + hashlib.md5(txt.encode()).hexdigest()[:10] + '.toml')
+                    if not cf.exists():
+                        cf.write_text(txt)
                 kind = op.get('fail')
                 if kind == 'missing_config_file':
                     cf = self.tmp / 'does-not-exist.toml'
@@ -138,11 +142,14 @@ def gen_ops(rng):
             kw = VALID_KW[int(rng.integers(0, len(VALID_KW)))]
             f = None
             if rng.random() < 0.4:
-                f = {'emissions': {'sox_enabled': bool(rng.random() < 0.5), 'climb_descent_mode': str(rng.choice(['trajectory', 'lto']))}}
+                f = {'emissions': {'sox_enabled': bool(rng.random() < 0.5), 'climb_descent_mode': str(rng.choice(['trajectory', 'trajectory', 'lto']))}}
             ops.append({'op': 'load', 'kwargs': kw, 'file': f})
         elif r < 0.55:
             kind = FAIL_KINDS[int(rng.integers(0, len(FAIL_KINDS)))]
-            ops.append({'op': 'load', 'kwargs': VALID_KW[int(rng.integers(0, len(VALID_KW)))], 'file': None, 'fail': kind})
+            f = None
+            if rng.random() < 0.4:
+                f = {'emissions': {'sox_enabled': bool(rng.random() < 0.5), 'climb_descent_mode': 'trajectory'}}
+            ops.append({'op': 'load', 'kwargs': VALID_KW[int(rng.integers(0, len(VALID_KW)))], 'file': f, 'fail': kind})
         elif r < 0.67:
             ops.append({'op': 'get'})
         elif r < 0.80:
